@@ -220,6 +220,18 @@ pub fn measure_precision_tsc(frequency: u64) -> u128 {
         .picos
 }
 
+/// `Timer::precision()` — the cached value that is reported and used by the
+/// sampling loop — of the OS timer (`None`) or of a TSC timer.
+pub fn timer_precision(tsc_frequency: Option<u64>) -> u128 {
+    let timer = match tsc_frequency {
+        Some(f) => Timer::Tsc {
+            frequency: NonZeroU64::new(f).expect("frequency"),
+        },
+        None => Timer::Os,
+    };
+    timer.precision().picos
+}
+
 pub fn fmt_duration(picos: u128) -> String {
     FineDuration { picos }.to_string()
 }
